@@ -2,6 +2,7 @@
 C02 — an actor processes one message at a time (serial, race-free Receive).
 -/
 import HW.Proofs.Inbox
+import HW.Proofs.ProcReopen
 import HW.Props.Facts
 namespace HW.C02
 open HW.Inbox
@@ -14,6 +15,14 @@ theorem mutex (B : Nat) (hB : 1 ≤ B) (senders : List (List Msg)) (nStop : Nat)
     (hr : Reachable B senders nStop s) (hp : s.restartedAfterStop = false) :
     nInside s ≤ 1 :=
   Inbox.mutex B hB senders nStop s hr hp
+
+/-- The obligation on process.go is discharged for the life-cycle model: for every restart budget,
+    chain, crash script and history the inbox of a process is opened at most once in its life (a
+    restart finds it running: its `inbox.Start` is a no-op; a process stopped during replay does not
+    re-open it) — so `restartedAfterStop` stays false. -/
+theorem inbox_opened_at_most_once (max mw : Nat) (script : List Proc.Outcome) (batches : List (List Proc.Msg)) :
+    Proc.noReopen (Proc.runHistory max mw script batches).1.trace = true :=
+  Proc.no_reopen max mw script batches
 
 /-- Happens-before between consecutive invocations rests on Go atomics: a worker leaves `Receive`
     before its CAS(running,idle); the next worker is created by the goroutine whose CAS(idle,running)
